@@ -84,6 +84,43 @@ def show(tr):
                     ((":%d" % e["n"]) if e["n"] else "") + (">" if e["k"] == "out" else "") for e in tr["events"])
 
 
+def controls():
+    """Hand-written histories with a known verdict: the self-test of the monitor run (a wrong verdict is a tool error)."""
+    O = lambda t, i="", n=0: E("out", t, i, n)
+    hs = [E("in", "init"), E("recv", "init"), E("initcall"), O("pending"), E("initres", n=1), O("ack")]
+    st = lambda i, g: [E("in", "start", i), E("recv", "start", i), E("exec", "", i, g)]
+    dup = hs + st("a", 1) + [E("in", "start", "a"), E("recv", "start", "a")]
+    return [
+        ("ok", "GWS", hs + st("a", 1) + [E("ev", "", "a", 1), O("next", "a", 1), E("end", "", "a", 1), O("complete", "a"), O("pending")]),
+        ("violation:P1", "GWS", [E("in", "init"), E("recv", "init"), E("initcall"), O("next", "a", 1)]),
+        ("violation:P1", "STWS", [E("in", "start", "a"), E("recv", "start", "a"), E("exec", "", "a", 1)]),
+        ("violation:P1", "GWS", hs + [O("ack")]),
+        ("violation:P2", "GWS", hs + [O("next", "a", 1)]),
+        ("violation:P2", "STWS", hs + st("a", 1) + [E("ev", "", "a", 1)] + st("a", 2) + [O("next", "a", 1)]),
+        ("violation:P3", "GWS", hs + st("a", 1) + [E("end", "", "a", 1), O("complete", "a"), O("complete", "a")]),
+        ("violation:P3", "STWS", hs + st("a", 1) + [E("ev", "", "a", 1), E("in", "stop", "a"), E("recv", "stop", "a"), O("complete", "a"), O("next", "a", 1)]),
+        ("ok", "GWS", dup + [O("close", "", 4409), O("none")]),
+        ("known:DevDupIdReplaces", "GWS", dup + [E("exec", "", "a", 2), O("pending")]),
+        ("violation:P4", "GWS", dup + [O("close", "", 4400)]),
+        ("violation:P4", "GWS", dup + [O("pending")]),
+        ("known:DevUnauth1011", "GWS", [E("in", "start", "a"), E("recv", "start", "a"), O("close", "", 1011), O("none")]),
+        ("violation:P4", "GWS", [E("in", "start", "a"), E("recv", "start", "a"), O("close", "", 1002)]),
+        ("ok", "STWS", [E("in", "start", "a"), E("recv", "start", "a"), O("close", "", 1011), O("none")]),
+        ("violation:P4", "STWS", [E("in", "start", "a"), E("recv", "start", "a"), O("pending")]),
+        ("violation:P4", "STWS", hs + [E("in", "init"), E("recv", "init"), O("error"), O("pending")]),
+        ("violation:P4", "GWS", hs + [E("in", "init"), O("pending")]),
+        ("ok", "GWS", [E("in", "init"), E("recv", "init"), E("initcall"), O("pending"), E("in", "init"), O("pending")]),
+        ("known:DevInvalid1002", "GWS", [E("in", "bad"), E("recv", "bad"), O("close", "", 1002), O("none")]),
+        ("violation:P5", "GWS", [E("in", "bad"), E("recv", "bad"), O("close", "", 4400), O("pending")]),
+        ("violation:P5", "STWS", hs + st("a", 1) + [E("ev", "", "a", 1), E("in", "term"), E("recv", "term"), O("next", "a", 1)]),
+        ("violation:P0", "GWS", hs + [O("close", "", 1000)]),
+        ("violation:P0", "GWS", hs + [O("error")]),
+    ]
+
+
+CONTROL_BASE = 10000000
+
+
 def validate(c, cases, label, do_drift=True, drift_cap=0):
     """harness + V (verdict, drift) for a list of cases; returns the traces with verdicts attached."""
     vlib.write_ndjson(c.path("schedules.ndjson"), cases)
@@ -95,14 +132,20 @@ def validate(c, cases, label, do_drift=True, drift_cap=0):
     if len(traces) != len(cases):
         raise vlib.ToolError("harness wrote %d traces for %d cases" % (len(traces), len(cases)))
     # TLC reads only what it judges: id, configuration, events
-    vlib.write_ndjson(c.path("events.ndjson"), [{"id": t["id"], "proto": t["proto"], "keepalive": t["keepalive"], "events": t["events"]} for t in traces])
+    rows = [{"id": t["id"], "proto": t["proto"], "keepalive": t["keepalive"], "events": t["events"]} for t in traces]
+    ctl = controls()
+    vlib.write_ndjson(c.path("events.ndjson"), rows + [{"id": CONTROL_BASE + i, "proto": p, "keepalive": False, "events": ev} for i, (_, p, ev) in enumerate(ctl)])
     v = vlib.run_tlc("conc/WebSocketTrace.tla", "conc/WebSocketTrace.cfg", env={"TRACE": c.path("events.ndjson")},
                      workers=1, timeout=3000, keep_lines=50, xmx="8g")
     c.add_tlc("V verdict fold (%s)" % label, v)
     verdicts = {t[1]: (t[2], t[3]) for t in v.tagged("VERDICT") if len(t) >= 4}
     whys = {t[1]: t[2] for t in v.tagged("WHY") if len(t) >= 3}
-    if len(verdicts) != len(traces):
-        raise vlib.ToolError("V produced %d verdicts for %d traces" % (len(verdicts), len(traces)))
+    if len(verdicts) != len(traces) + len(ctl):
+        raise vlib.ToolError("V produced %d verdicts for %d traces" % (len(verdicts), len(traces) + len(ctl)))
+    for i, (want, _, _) in enumerate(ctl):
+        if verdicts[CONTROL_BASE + i][0] != want:
+            raise vlib.ToolError("monitor self-test: control history %d judged %s, expected %s" % (i, verdicts[CONTROL_BASE + i][0], want))
+    c.cov["monitor_control_histories"] = len(ctl)
     for tr in traces:
         vd, at = verdicts[tr["id"]]
         tr["verdict"], tr["bad_at"] = vd, at
@@ -110,7 +153,6 @@ def validate(c, cases, label, do_drift=True, drift_cap=0):
             tr["why"] = "%s: %s; rejected event #%s %s" % (vd, whys.get(tr["id"], ""), at, json.dumps(tr["events"][at - 1]) if 0 < at <= len(tr["events"]) else "")
     drift = []
     if do_drift:
-        rows = vlib.read_ndjson(c.path("events.ndjson"))
         if drift_cap and len(rows) > drift_cap:   # quick tier: the model replay runs on a seeded sample (plus every excused trace)
             rr = random.Random(c.seed)
             keep = set(rr.sample(range(len(rows)), drift_cap)) | set(i for i, t in enumerate(traces) if t["verdict"] != "ok")
@@ -183,8 +225,12 @@ def body(c):
         c.add_tlc("M deviation %s on: TLC counterexample to P4 (expected)" % dev, r)
     c.cov["deviation_counterexamples"] = demos
     if not c.quick:
+        lv = vlib.run_tlc("conc/WebSocket.tla", "conc/MC_WebSocket_Live.cfg", workers=4, timeout=2400, xmx="8g")
+        if lv.invariant_violated:
+            raise vlib.ToolError("design-level failure: liveness property Drains violated: " + str(lv.invariant_violated))
+        c.add_tlc("M liveness: an open server eventually reads every client message (weak fairness of poll_next and callbacks)", lv)
         tail = "INIT Init\nNEXT Next\nINVARIANT OnlyNamedDeviations\nINVARIANT MonitorInSync\n"
-        cfg = write_cfg(c.path("M_today.cfg"), ["GWS", "STWS"], [True, False], ["a", "b"], 2, 5, 2, ALL_DEV, tail)
+        cfg = write_cfg(c.path("M_today.cfg"), ["GWS", "STWS"], [True], ["a", "b"], 2, 4, 2, ALL_DEV, tail)
         r = vlib.run_tlc("conc/WebSocket.tla", cfg, workers=8, timeout=2400, xmx="8g")
         if r.invariant_violated:
             raise vlib.ToolError("model of today's code breaks a clause other than through a named deviation: " + str(r.invariant_violated))
@@ -195,9 +241,9 @@ def body(c):
         gens = [("eager", ["a", "b"], 1, 3, 1, True, [True, False]), ("free", ["a"], 1, 2, 2, False, [False])]
     else:
         gens = [("eager", ["a", "b"], 1, 4, 1, True, [True, False]), ("eager2", ["a"], 2, 4, 1, True, [False]),
-                ("free", ["a"], 1, 3, 2, False, [True, False])]
+                ("free", ["a"], 1, 3, 2, False, [False])]
     cases, exhaustive = [], True
-    cap = 9000 if c.quick else 120000
+    cap = 9000 if c.quick else 40000
     for (name, ids, maxev, maxin, maxq, eager, kas) in gens:
         cfg = write_cfg(c.path("G_%s.cfg" % name), ["GWS", "STWS"], kas, ids, maxev, maxin, maxq, ALL_DEV, gtail % ("TRUE" if eager else "FALSE"))
         g = vlib.run_tlc("conc/Gen_WebSocket.tla", cfg, workers=8, timeout=3000, keep_lines=50, xmx="8g")
@@ -212,14 +258,14 @@ def body(c):
             exhaustive = False
         cases += [{"proto": p, "keepalive": bool(k), "sched": json.loads(s)} for (p, k, s) in rows]
     # the ideal model satisfies the declarative clauses themselves
-    cfg = write_cfg(c.path("G_ideal.cfg"), ["GWS", "STWS"], [True, False], ["a"], 1, 3 if c.quick else 4, 2, [],
+    cfg = write_cfg(c.path("G_ideal.cfg"), ["GWS", "STWS"], [True, False], ["a"], 1, 3, 2, [],
                     "CONSTANT Eager = %s\nINIT GInit\nNEXT GNext\nINVARIANT IdealSatisfiesDecl\n" % ("TRUE" if c.quick else "FALSE"))
     gi = vlib.run_tlc("conc/Gen_WebSocket.tla", cfg, workers=8, timeout=3000, keep_lines=50, xmx="8g")
     if gi.invariant_violated:
         raise vlib.ToolError("the protocol model violates the declarative clauses: " + str(gi.invariant_violated))
     c.add_tlc("M protocol as written satisfies the declarative clauses D1-D5 over the history", gi)
     n_graph = len(cases)
-    for _ in range(600 if c.quick else 20000):
+    for _ in range(600 if c.quick else 10000):
         cases.append(random_script(rng))
     # ---- harness + V -------------------------------------------------------------------------------
     traces, drift = validate(c, cases, "all traces", drift_cap=2500 if c.quick else 0)
@@ -235,12 +281,16 @@ def body(c):
         c.count_case([tr["proto"], tr["keepalive"], tr["events"]], nontrivial=any(e["k"] == "recv" for e in tr["events"]))
         vd = tr["verdict"]
         c.verdict(vd if not vd.startswith("violation") else "violation", tr, tr.get("why", ""))
-    for k, n in seen.items():
-        if n == 0:
-            raise vlib.ToolError("vacuity: no trace contains output '%s'" % k)
-    for code in (4429, 3008):
-        if codes.get(code, 0) == 0:
-            raise vlib.ToolError("vacuity: close code %d never observed" % code)
+    if not c.violations:   # vacuity guards apply to a run that would otherwise report "held"
+        for k, n in seen.items():
+            if n == 0:
+                raise vlib.ToolError("vacuity: no trace contains output '%s'" % k)
+        for code in (4429, 3008):
+            if codes.get(code, 0) == 0:
+                raise vlib.ToolError("vacuity: close code %d never observed" % code)
+        for t in ("init", "start", "stop", "ping", "pong", "term", "bad", "eof"):
+            if not any(e["k"] == "recv" and e["t"] == t for tr in traces for e in tr["events"]):
+                raise vlib.ToolError("vacuity: the server never took a client message of kind '%s'" % t)
     for (i, got, total) in drift:
         c.drift("trace %s: the model of today's code follows %s of %s recorded events" % (i, got, total))
     c.cov["traces_validated_against_impl"] = len(traces)
